@@ -95,6 +95,8 @@ type World struct {
 	// at most TimerBudget times in a row (needed when pool timers drive progress)
 	TimerStep   time.Duration
 	TimerBudget int
+	// KeepWaiting, if set, is asked before each idle clock advance; false ends the settle early
+	KeepWaiting func() bool
 	Start       time.Time
 
 	Stat      Stats
@@ -102,6 +104,7 @@ type World struct {
 	EventLog  []string // only kept when LogEvents
 	LogEvents bool
 	nconn     int
+	ndial     int
 }
 
 // Stats are per-run reach counters.
@@ -208,6 +211,9 @@ func (w *World) Quiesce() {
 	for _, c := range w.Clients {
 		if b := c.C.TakeOut(); len(b) > 0 {
 			c.Recv = append(c.Recv, b...)
+			if w.LogEvents {
+				w.logf("recv %s %dB %x", c.Name, len(b), fnvSum(b))
+			}
 		}
 	}
 }
@@ -390,6 +396,15 @@ func (w *World) Internal() []Event {
 				out = w.Ch.Choose(p.N, p.Label())
 			}
 			w.Stat.Releases++
+			if p.Kind == "dial" {
+				// De-synchronise periodic timers: goroutines that sleep for equal periods
+				// (the pool monitors of two relays, reconnect loops) would otherwise wake at
+				// the same simulated instant and race outside the kernel's control. Every
+				// dial completes after a nudge that is a distinct power of two, so the
+				// phases of any two such loops (sums over disjoint sets of dials) differ.
+				time.Sleep(time.Duration(1<<(w.ndial%22)) * time.Nanosecond)
+				w.ndial++
+			}
 			w.logf("release %s -> %d", p.Label(), out)
 			w.Run.Release(p, out)
 		}})
@@ -427,7 +442,7 @@ func (w *World) Settle() bool {
 		}
 		evs := w.Internal()
 		if len(evs) == 0 {
-			if w.TimerStep > 0 && idle < w.TimerBudget {
+			if w.TimerStep > 0 && idle < w.TimerBudget && (w.KeepWaiting == nil || w.KeepWaiting()) {
 				idle++
 				w.Advance(w.TimerStep)
 				continue
@@ -512,4 +527,13 @@ func (w *World) Teardown() {
 		}
 	}
 	synctest.Wait()
+}
+
+func fnvSum(b []byte) uint32 {
+	h := uint32(2166136261)
+	for _, c := range b {
+		h ^= uint32(c)
+		h *= 16777619
+	}
+	return h
 }
